@@ -250,6 +250,15 @@ def refused_changes(line, fi):
     return out
 
 
+def s_alts(s):
+    """S line → [(needs_open_finding, msg, bytes)]"""
+    out = []
+    for a in s.split(" ", 1)[1].split(" || "):
+        tag = a.startswith("leftover ")
+        out.append((tag, a.split("msg=", 1)[1].rsplit(" bytes=", 1)[0], a.rsplit(" bytes=", 1)[1]))
+    return out
+
+
 def d3(proto, dump):
     """D3: on reliable transports type and mid read back as 0"""
     if proto == "udp":
@@ -282,10 +291,9 @@ def judge(ctx, c):
         spat = s.split(" ")[0][4:]
         spat = "" if spat == "-" else spat
         if rc_pattern(fi.get("steps")) == spat:
-            alts = []
-            for a in s.split(" ", 1)[1].split(" || "):
-                smsg = a.split("msg=", 1)[1].rsplit(" bytes=", 1)[0]
-                alts.append((smsg, a.rsplit(" bytes=", 1)[1]))
+            alts = [(sm, sb) for tag, sm, sb in s_alts(s) if not tag]
+            if not alts:
+                alts = [("(no admissible abstract result)", "-")]
             if not any(fi["reparse"] == "ok " + sm for sm, sb in alts):
                 return ("spec", "re-parsed message %s differs from the abstract model %s" % (short(fi["reparse"]), short(alts[0][0])))
             if not any(fi["reparse"] == "ok " + sm and fi["bytes"] == sb for sm, sb in alts):
@@ -343,27 +351,22 @@ def shrink(ctx, case):
         lines = [" ".join(w[:6] + [";".join(x)]) for x in cands]
         for cc, x in zip(diff_side(ctx, me, lines), cands):
             v = judge(ctx, cc)
-            if v and v[0] == "spec":
+            if v and v[0] == "spec" and not known(ctx, cc):     # never shrink a violation into a known finding
                 cc["why"] = v[1]; best = cc; ops = x; changed = True
                 break
     return best
 
 
-def _optnums(dump):
-    import re
-    m = re.search(r"opts=(\S+)", dump)
-    if not m or m.group(1) == "-":
-        return []
-    return [o.split(":")[0] + ":" + o.split(":")[1] for o in m.group(1).split(",")]
-
-
 def known(ctx, c):
-    """open finding hop-limit-left-by-refused-proxy.  Signature, on the CALL: a coap_add_option / coap_insert_option /
-    coap_update_option for Proxy-Uri (35) or Proxy-Scheme (39) on a request (code 1..31) returns 0 and used_size grows
-    by 0..4 bytes (one Hop-Limit option of 2..4 bytes, the following header may shrink by 0..2) — and nothing else is
-    wrong with the case: every refused call that changed the PDU has that form, and once those calls are explained the
-    end state is an admissible abstract message + only Hop-Limit 16:10 options the abstract side did not add.
-    A refused call of any other kind that changes the PDU, a larger change, or any other difference does not match."""
+    """open finding hop-limit-left-by-refused-proxy.  A case belongs to it iff
+      (a) every refused call that changed the PDU is a coap_add_option / coap_insert_option / coap_update_option for
+          Proxy-Uri (35) or Proxy-Scheme (39) on a request (code 1..31) and used_size grew by 0..4 bytes, and there is one;
+      (b) the message round-trips (what was built is what is re-parsed);
+      (c) when the abstract side has a verdict: the refusal patterns agree and the implementation's message and bytes are
+          EXACTLY an abstract result computed with "a refused Proxy call still inserts Hop-Limit = 16" (tagged `leftover`
+          by the driver) — not merely similar to one.
+    Any other refused call changing the PDU, any larger change, any end state that even the leftover semantics does not
+    explain, is not this finding and is reported."""
     w = c["input"].split()
     if w[0] != "build":
         return None
@@ -372,38 +375,22 @@ def known(ctx, c):
     if not fi or not (1 <= code < 32):
         return None
     bad = refused_changes(c["input"], fi)
+    if not bad:
+        return None
     for k, op, before, after in bad:
         if not (op[0] in "OIU" and op[1:].split(":")[0] in ("35", "39")):
             return None
         grow = int(after.split(".")[0]) - int(before.split(".")[0])
         if not (0 <= grow <= 4):
             return None
-    # the round-trip rule must hold on its own: what was built is what is parsed
     proto = w[1]
     if in_domain(c["input"]) and (fi.get("hdr") == "0" or fi["reparse"] != "ok " + d3(proto, fi["built"])):
         return None
-    # end state against the abstract alternatives: equal, or one extra 16:10
     if s and s != "skip":
         spat = s.split(" ")[0][4:]
         spat = "" if spat == "-" else spat
-        if rc_pattern(fi.get("steps")) != spat or not fi["reparse"].startswith("ok "):
+        if rc_pattern(fi.get("steps")) != spat:
             return None
-        ii = _optnums(fi["reparse"])
-        match = False
-        for a in s.split(" ", 1)[1].split(" || "):
-            smsg = a.split("msg=", 1)[1].rsplit(" bytes=", 1)[0]
-            si = _optnums(smsg)
-            extra = list(ii)
-            ok = True
-            for x in si:
-                if x in extra:
-                    extra.remove(x)
-                else:
-                    ok = False
-            same_rest = fi["reparse"][3:].split(" opts=")[0] == smsg.split(" opts=")[0] and \
-                fi["reparse"].rsplit(" pl=", 1)[1] == smsg.rsplit(" pl=", 1)[1]
-            if ok and same_rest and extra in ([], ["16:10"]):
-                match = True
-        if not match:
+        if not any(fi["reparse"] == "ok " + sm and fi["bytes"] == sb for tag, sm, sb in s_alts(s)):
             return None
-    return "hop-limit-left-by-refused-proxy" if bad else None
+    return "hop-limit-left-by-refused-proxy"
